@@ -38,6 +38,9 @@ func (p *Parser) Parse(row string) (*Markdown, error) {
 		return nil, ErrBlankLine
 	}
 
+	p.mu.Lock()
+	defer p.mu.Unlock()
+
 	if strings.HasPrefix(row, sharp) {
 		p.isSharpRoot = true
 
@@ -56,9 +59,6 @@ func (p *Parser) Parse(row string) (*Markdown, error) {
 			text:      text,
 		}, nil
 	}
-
-	p.mu.Lock()
-	defer p.mu.Unlock()
 
 	spaceCount, afterText, err := p.separateRow(row)
 	if err != nil {
